@@ -86,7 +86,7 @@ def lexF64ok (s : List Nat) : Bool :=
 
 /-- the value of `%J` is not modelled: results that depend on it are answered `unmodelled` -/
 def oracles : Oracles :=
-  { weekdayTai := hwWeekday, lexDoy := fun s => if lexF64ok s then some (Dur.ZERO, true, true) else none }
+  { weekdayTai := hwWeekday, lexDoy := fun s => if lexF64ok s then some (1, Dur.ZERO) else none }
 
 /-! ### defect classes -/
 
@@ -174,6 +174,8 @@ def noPanic (impl : Impl) : String :=
   | .other "panic" => "FAIL:panic"
   | .other "hang" => "FAIL:hang"
   | .other "abort" => "FAIL:abort"
+  -- `p_fmtparse`: `Format::parse` and `Epoch::from_str_with_format` answered differently (harness word)
+  | .other w => if w.startsWith "entry-points-differ" then "FAIL:entry_points_differ" else "ok"
   | _ => "ok"
 
 def tagsOf (l : List (String × Bool)) : String :=
@@ -261,9 +263,16 @@ def parseOp (op : String) (fr : Res Format) (items : Option (List Spec.Efmt.SIte
   match fr with
   | .ok f =>
     let m := formatParse oracles f s
-    -- `%J`: the parsed value is not modelled, so neither is an `ok` result nor the weekday comparison
+    -- `%J`: the parsed value is not modelled, and everything after the loop depends on it (range, the date it
+    -- names, the written month/day/weekday compared with that date, second 60): once the LOOP succeeds the
+    -- result is `unmodelled`; a failure of the loop itself (which only needs "the f64 parser accepts") stays tied
     let valueOpen : Bool := hasTok f .DayOfYear &&
-      (match m with | .ok _ => true | .err => hasTok f .Weekday || hasTok f .WeekdayShort | .panic => false)
+      (match f.items with
+       | [] => false
+       | it :: _ =>
+         match parseLoop oracles f (trim s) (byteLen (trim s)) (trim s) 0 (St.init it) with
+         | .ok _ => true
+         | _ => false)
     let tf : Option Spec.Efmt.TFields := match items with | some its => Spec.Efmt.readText its s | none => none
     let clause : Option String := match tf with | some F => Spec.Efmt.mustRejectText F | none => none
     let implScale : Option String := match impl with
